@@ -7,7 +7,7 @@ CONSTANTS
   MaxRuns = 2
   EntQKinds = {"positive", "nxdomain"}
   Budget = 1
-  Shapes = {"entapex_s", "entname_s", "entapex_i"}
+  Shapes = {"entapex_s", "entname_s"}
   Denials = {"nsec", "nsec3"}
   QKinds = {"positive", "nxdomain"}
   AdvActs = {"TimePasses", "ShortSig"}
